@@ -68,7 +68,6 @@ def search (M : Model) (name : String) (T : Ty) (props : List Term) (nsamples se
   let cost := props.foldl (fun c t => Oracle.costAcc M t c) 0
   let sizeT := M.size T
   if cost > maxCost then .skip s!"cost {cost}"
-  else if sized.any (fun p => p.2 > maxCost) then .skip "atom size"
   else if sizeT > 4096 then .skip "constant size"
   else
     let vars := sized.filter (fun p => p.1.1 != 2)
